@@ -269,7 +269,7 @@ func init() {
 }
 
 func c20Read(c *Ctx) {
-	n := c.N(1500, 40000)
+	n := c.N(2500, 120000)
 	for i := 0; i < n; i++ {
 		c.Case(int64(i), func(k *K) {
 			r := k.Rand()
@@ -307,7 +307,7 @@ func c20Read(c *Ctx) {
 }
 
 func c20Corrupt(c *Ctx) {
-	n := c.N(3000, 100000)
+	n := c.N(4000, 300000)
 	for i := 0; i < n; i++ {
 		c.Case(int64(i), func(k *K) {
 			r := k.Rand()
